@@ -168,6 +168,17 @@ func runTrial(k *vf.Case) {
 				rh.rejected = true
 			}
 		}
+		// some callbacks also observe an instrument that will never have an SDK counterpart (the SDK rejects
+		// its name when the global meter is switched over) and that is not in the registration's list: the
+		// observation must simply be ignored
+		var orphanI metric.Int64ObservableGauge
+		var orphanF metric.Float64ObservableCounter
+		switch gr.Intn(10) {
+		case 0:
+			orphanI, _ = m.Int64ObservableGauge(fmt.Sprintf("9 not a valid name %d", id))
+		case 1:
+			orphanF, _ = m.Float64ObservableCounter(fmt.Sprintf("%d-invalid name", id))
+		}
 		inv := rh.invocations
 		reg, err := m.RegisterCallback(func(_ context.Context, o metric.Observer) error {
 			inv.Add(1)
@@ -175,6 +186,12 @@ func runTrial(k *vf.Case) {
 				o.ObserveInt64(ah.oi, 1)
 			} else {
 				o.ObserveFloat64(ah.of, 1)
+			}
+			if orphanI != nil {
+				o.ObserveInt64(orphanI, 7)
+			}
+			if orphanF != nil {
+				o.ObserveFloat64(orphanF, 7)
 			}
 			return nil
 		}, list...)
